@@ -240,7 +240,7 @@ def load_hdf5(path, meta_only=False):
         # load individual curves
         for akey in h5["analysis"]:
             h5gr = h5["analysis"][akey]
-            if "fit" not in h5gr:
+            if not _analysis_complete(h5gr):
                 warnings.warn(f"Ignoring incomplete '{akey}'!")
                 continue
             attrs = h5gr.attrs
@@ -263,7 +263,8 @@ def load_hdf5(path, meta_only=False):
                     parms.loads(val)
                     val = parms
                 elif key == "preprocessing":
-                    val = val.split(",")
+                    # (an empty list is stored as an empty string)
+                    val = val.split(",") if val else []
                 elif key in ["preprocessing_options", "method_kws"]:
                     val = json.loads(val)
                 elif key == "range_x":
@@ -318,6 +319,9 @@ def save_hdf5(h5path, indent, user_rate, user_name, user_comment, h5mode="a"):
         # store indentation data along with the user rate
         ana = h5.require_group("analysis")
         idd = "{}_{}".format(dhash, indent.enum)
+        if idd in ana and not _analysis_complete(ana[idd]):
+            # leftover of a save that failed part-way; write it again
+            del ana[idd]
         if idd in ana:
             # Only allow overriding of user data if fit matches.
             # Otherwise, the rating might be wrong.
@@ -373,6 +377,19 @@ def save_hdf5(h5path, indent, user_rate, user_name, user_comment, h5mode="a"):
         out.attrs["h5py version"] = h5py.__version__
 
 
+def _analysis_complete(h5gr):
+    """Whether an analysis group holds everything `load_hdf5` needs"""
+    for dset in ["fit", "fit range", "fit residuals", "force", "segment",
+                 "tip position"]:
+        if dset not in h5gr:
+            return False
+    for attr in ["data enum", "data hash", "user comment", "user name",
+                 "user rate"]:
+        if attr not in h5gr.attrs:
+            return False
+    return True
+
+
 def hdf5_rated(h5path, indent):
     """Test whether an indentation has already been rated
 
@@ -390,7 +407,7 @@ def hdf5_rated(h5path, indent):
                 ana = h5["analysis"]
                 dhash = hash_file(indent.path)
                 idd = "{}_{}".format(dhash, indent.enum)
-                if idd in ana:
+                if idd in ana and _analysis_complete(ana[idd]):
                     is_rated = True
                     rating = ana[idd].attrs["user rate"]
                     comment = ana[idd].attrs["user comment"]
